@@ -485,9 +485,9 @@ class Shelxfile():
                     if self.debug or self.verbose:
                         print('*** Invalid SHELX file: CELL must occur before ZERR. ***')
                     if self.debug:
-                        raise ParseOrderError(debug=shx.debug, verbose=shx.verbose)
+                        raise ParseOrderError(debug=self.debug, verbose=self.verbose)
                 if not self.cell:
-                    raise ParseOrderError('*** Cell parameters missing! ***', debug=shx.debug, verbose=shx.verbose)
+                    raise ParseOrderError('*** Cell parameters missing! ***', debug=self.debug, verbose=self.verbose)
                 if len(spline) >= 8:
                     self.zerr: ZERR = self._assign_card(ZERR(self, spline), line_num)
                     self.Z = self.zerr.Z
@@ -549,7 +549,7 @@ class Shelxfile():
                 # UNIT n1 n2 ...
                 # Number of atoms of each type in the unit-cell, in SFAC order.
                 if lastcard != 'SFAC':
-                    raise ParseOrderError(debug=shx.debug, verbose=shx.verbose)
+                    raise ParseOrderError(debug=self.debug, verbose=self.verbose)
                 if self.sfac_table:
                     try:
                         self.unit = self._assign_card(UNIT(self, spline), line_num)
@@ -559,11 +559,11 @@ class Shelxfile():
                         if self.debug:
                             raise
                 else:
-                    raise ParseOrderError(debug=shx.debug, verbose=shx.verbose)
+                    raise ParseOrderError(debug=self.debug, verbose=self.verbose)
                 if len(self.unit.values) != len(self.sfac_table.elements_list) and (self.debug or self.verbose):
                     print('*** Number of UNIT and SFAC values differ! ***')
                     if self.debug:
-                        raise ParseNumError(debug=self.shx.debug, verbose=self.shx.verbose)
+                        raise ParseNumError(debug=self.debug, verbose=self.verbose)
                 lastcard = 'UNIT'
             elif word in ['L.S.', 'CGLS']:
                 # CGLS nls[0] nrf[0] nextra[0]
@@ -638,7 +638,7 @@ class Shelxfile():
             elif word == 'DISP':
                 # DISP E f' f"[#] mu[#]
                 if lastcard != 'SFAC':
-                    raise ParseOrderError(debug=shx.debug, verbose=shx.verbose)
+                    raise ParseOrderError(debug=self.debug, verbose=self.verbose)
                 self._append_card(self.disp, DISP(self, spline), line_num)
             elif word == 'EQIV':
                 # EQIV $n symmetry operation
@@ -658,7 +658,7 @@ class Shelxfile():
             elif word == 'FEND':
                 # FEND (must follow FRAG)
                 if not self.frag:
-                    raise ParseOrderError(debug=shx.debug, verbose=shx.verbose)
+                    raise ParseOrderError(debug=self.debug, verbose=self.verbose)
                 self.frag = None  # Turns frag mode off.
             elif word == 'FLAT':
                 # FLAT s[0.1] four or more atoms
@@ -707,7 +707,7 @@ class Shelxfile():
                 # NEUT
                 # TODO: Implement NEUT class
                 if lastcard != 'SYMM':
-                    raise ParseOrderError(debug=shx.debug, verbose=shx.verbose)
+                    raise ParseOrderError(debug=self.debug, verbose=self.verbose)
             elif word == 'OMIT':
                 # OMIT atomnames  or  OMIT s[-2] 2θ(lim)[180]  or  OMIT h k l
                 # TODO: Implement OMIT class
